@@ -76,7 +76,12 @@ def run_case(case, fmt, tmp, select=False):
                 else:
                     _, split, o, ok = op
                     cm = None if o is None else objs.setdefault(o, {})
-                    val = np.array([i], np.int32) if ok else np.array([i, i], np.int32)
+                    if ok:
+                        val = np.array([i], np.int32)
+                    elif fmt == "tfrec" and i % 2:
+                        val = np.array([i + 0.5], np.float64)      # right shape, wrong dtype kind: rejected inside the writer, after its file was opened
+                    else:
+                        val = np.array([i, i], np.int32)           # wrong shape: rejected by the common check before the writer is called
                     try:
                         f.write_example(values={"a": val}, split=SPLITS[split], custom_metadata=cm)
                         raised.append(False)
